@@ -612,6 +612,61 @@ func (g *Gen) condForm(depth int) (V, []V) {
 	return vq(t), a
 }
 
+// ---- text with more '?' than arguments: the extra ones stand in literals / comments AFTER the real
+// placeholders (valid SQL; gorm leaves them alone).  Outside the counted domain, but no argument may
+// reach the text and the text may not depend on the values. ----
+var litQ = []string{" AND code <> '?'", " AND code NOT LIKE '%?%' /* why? */", " /* ? ? */", " AND name <> 'a?b' AND code <> '?'"}
+
+func (g *Gen) strOrOther() V {
+	switch g.r.Intn(4) {
+	case 0:
+		return vs(Sc{K: "str", S: g.fr.str()}, "string") // plain Go string: hostile
+	case 1:
+		return vs(Sc{K: "str", S: fmt.Sprintf("w%d", g.r.Intn(900)+100) + "ord"}, "string")
+	case 2:
+		return g.int()
+	}
+	return g.scalar()
+}
+
+func (g *Gen) litQCall() V {
+	sfx := lib.Pick(g.r, litQ)
+	switch g.r.Intn(5) {
+	case 0:
+		return V{T: "KCond", S: lib.Pick(g.r, []string{"KWh", "KNot", "KOr"}), X: vp(vq("name <> ?" + sfx)), L: []V{g.strOrOther()}}
+	case 1:
+		return V{T: "KSelect", S: "id, IFNULL(name, ?) || '?' AS name", L: []V{g.strOrOther()}}
+	case 2:
+		return V{T: "KSelect", S: "id, coalesce(?, name) AS name, coalesce(?, code) || '??' /* ? */ AS code", L: []V{g.strOrOther(), g.strOrOther()}}
+	case 3:
+		return V{T: "KJoins", S: "JOIN items AS j ON j.id = items.id AND j.name <> ? AND j.code <> '?'", L: []V{g.strOrOther()}}
+	}
+	return V{T: "KOrderExpr", X: vp(V{T: "VExpr", S: "CASE WHEN items.name = ? THEN 0 ELSE 1 END /* ? */", L: []V{g.strOrOther()}})}
+}
+
+func (g *Gen) litQInput() Input {
+	in := Input{TI: ItemTI}
+	switch g.r.Intn(6) {
+	case 0:
+		in.Fin = Fin{K: "raw", S: "SELECT * FROM items WHERE name <> ? AND code <> '?' -- ?", L: []V{g.strOrOther()}}
+	case 1:
+		in.Fin = Fin{K: "exec", S: "UPDATE items SET code = ? WHERE name = ? AND code <> '?' /* ? */", L: []V{g.strOrOther(), g.strOrOther()}}
+	case 2:
+		in.Chain = []V{{T: "KGroup", S: "name"}, {T: "KHaving", X: vp(vq("count(*) >= ? AND name <> '?'")), L: []V{g.strOrOther()}}}
+		in.Fin = Fin{K: "find"}
+	default:
+		in.Chain = []V{g.litQCall()}
+		if g.r.Bool() {
+			in.Chain = append(in.Chain, g.condCall(1, true))
+		}
+		in.Fin = Fin{K: lib.Pick(g.r, []string{"find", "find", "first", "count"})}
+		if in.Chain[0].T == "KSelect" && in.Fin.K == "count" {
+			in.Fin.K = "find"
+		}
+	}
+	return in
+}
+
 // ---- out-of-domain calls: only model and code have to agree on them ----
 func (g *Gen) badCall() V {
 	g.exec = false
@@ -911,6 +966,9 @@ func (g *Gen) Input() Input {
 }
 
 // an input with one deliberately malformed call
+// LitQInput: a case whose SQL text holds '?' characters that are not placeholders.
+func (g *Gen) LitQInput() Input { return g.litQInput() }
+
 func (g *Gen) BadInput() Input {
 	in := Input{TI: ItemTI, Chain: []V{g.badCall()}, Fin: Fin{K: "find"}}
 	if g.r.Bool() {
